@@ -7,6 +7,8 @@ import (
 	"encoding/base64"
 	"encoding/json"
 	"fmt"
+	"github.com/google/pprof/internal/binutils"
+	"github.com/google/pprof/internal/plugin"
 	"io"
 	"os"
 	"os/exec"
@@ -38,6 +40,8 @@ type Spec struct {
 	// OSWriter: output files are written by pprof itself into the session directory (instead of
 	// being captured by a Writer plug-in)
 	OSWriter bool
+	// RealObj: the object tool is pprof's own binutils wrapper (addr2line, nm, objdump from /usr/bin)
+	RealObj bool
 }
 
 // Segment is what one interactive line / one request produced.
@@ -155,6 +159,18 @@ func listFiles(dir string, seen map[string]string) map[string]string {
 	return out
 }
 
+// the child's PATH is empty: tools are named by directory
+const realTools = "addr2line:/usr/bin,nm:/usr/bin,objdump:/usr/bin,llvm-symbolizer:/nonexistent"
+
+func realObj(spec Spec) plugin.ObjTool {
+	if !spec.RealObj {
+		return nil
+	}
+	bu := &binutils.Binutils{}
+	bu.SetTools(realTools)
+	return bu
+}
+
 // Child is the entry point inside the child process.
 func Child(args []string) int {
 	in, _ := io.ReadAll(os.Stdin)
@@ -191,6 +207,9 @@ func Child(args []string) int {
 	strs := map[string]string{"symbolize": "none"}
 	for k, v := range spec.Strs {
 		strs[k] = v
+	}
+	if spec.RealObj {
+		strs["tools"] = realTools // the driver configures the object tool from this flag
 	}
 	segDir := filepath.Join(spec.Dir, "seg")
 	os.MkdirAll(segDir, 0o755)
@@ -250,7 +269,7 @@ func Child(args []string) int {
 			}
 		}
 		_ = gran
-		s := &drv.Session{Flags: &drv.Flags{Bools: bools, Strs: strs, Args: []string{"p"}}, Fetch: fetch, UI: ui, Writer: w, OSWriter: spec.OSWriter}
+		s := &drv.Session{Flags: &drv.Flags{Bools: bools, Strs: strs, Args: []string{"p"}}, Fetch: fetch, UI: ui, Writer: w, OSWriter: spec.OSWriter, Obj: realObj(spec)}
 		r := s.Run()
 		os.Stdout = realStdout
 		if r.Err != nil {
